@@ -4,6 +4,7 @@ import (
 	"errors"
 	"fmt"
 	"io"
+	"reflect"
 	"testing"
 
 	"github.com/cloudwego/gopkg/protocol/thrift"
@@ -25,7 +26,37 @@ type ErrChainCase struct {
 	A     []ErrStep `json:"a"`
 	B     []ErrStep `json:"b,omitempty"`
 	Fresh []ErrStep `json:"fresh,omitempty"` // extra fresh leaf targets
+	FR    evid.Hex  `json:"fr,omitempty"`    // bytes later decoded (FastRead) into every protocol exception that wraps a cause
 }
+
+// multiErr is an error of an uncomparable dynamic type (as produced by error-list helpers).
+type multiErr []error
+
+func (m multiErr) Error() string {
+	s := "multi:"
+	for _, e := range m {
+		s += e.Error()
+	}
+	return s
+}
+
+// sameErr is identity of error values that also works for uncomparable dynamic types.
+func sameErr(a, b error) bool {
+	if a == nil || b == nil {
+		return a == nil && b == nil
+	}
+	ta, tb := reflect.TypeOf(a), reflect.TypeOf(b)
+	if ta != tb {
+		return false
+	}
+	if ta.Comparable() {
+		return a == b
+	}
+	va, vb := reflect.ValueOf(a), reflect.ValueOf(b)
+	return va.Kind() == reflect.Slice && va.Len() == vb.Len() && va.Pointer() == vb.Pointer()
+}
+
+func comparableErr(e error) bool { return e != nil && reflect.TypeOf(e).Comparable() }
 
 type foreignErr struct {
 	id  int32
@@ -79,7 +110,7 @@ func dynKind(e error) int {
 // modelIs mirrors errors.Is over the model chain with the protocol-exception matching rule.
 func modelIs(n *enode, target error) bool {
 	for n != nil {
-		if n.err == target {
+		if comparableErr(target) && n.err == target { // errors.Is compares only comparable targets
 			return true
 		}
 		if n.kind == kProtocol {
@@ -119,6 +150,8 @@ func buildChain(steps []ErrStep, nodes *[]*enode, excludedF1 *int) (*enode, *evi
 				n.err, n.kind, n.typeID, n.msg = thrift.NewApplicationException(s.TypeID, msg), kApplication, s.TypeID, msg
 			case "foreign":
 				n.err, n.kind, n.typeID, n.msg = &foreignErr{s.TypeID, msg}, kForeign, s.TypeID, msg
+			case "uncmp":
+				n.err, n.kind = multiErr{errors.New(msg), io.EOF}, kPlain
 			default:
 				n.err, n.kind = errors.New(msg), kPlain
 			}
@@ -147,13 +180,13 @@ func buildChain(steps []ErrStep, nodes *[]*enode, excludedF1 *int) (*enode, *evi
 			if res == nil {
 				return nil, evid.Failf("step %d: NewProtocolExceptionWithErr returned nil", i)
 			}
-			if u := errors.Unwrap(res); u != cur.err {
+			if u := errors.Unwrap(res); !sameErr(u, cur.err) {
 				return nil, evid.Failf("step %d: errors.Unwrap(NewProtocolExceptionWithErr(e)) is %v, want e itself (%v)", i, u, cur.err)
 			}
 			n := &enode{err: res, kind: kProtocol, typeID: res.TypeId(), msg: res.Msg(), cause: cur, step: i}
 			// the cause and everything in its chain must stay reachable
 			for c := cur; c != nil; c = c.cause {
-				if !errors.Is(res, c.err) {
+				if comparableErr(c.err) && !errors.Is(res, c.err) {
 					return nil, evid.Failf("step %d: errors.Is(NewProtocolExceptionWithErr(e), x) is false for x = %q in e's chain", i, c.err)
 				}
 			}
@@ -286,6 +319,25 @@ func checkErrChain(c ErrChainCase, cv *cov) (v *evid.Violation) {
 				return
 			}
 		}
+		// decoding into a protocol exception that wraps a cause (it is a FastCodec receiver through its
+		// embedded application exception) must leave the cause reachable, whether the decode succeeds or not
+		for _, n := range nodes {
+			pe, ok := n.err.(*thrift.ProtocolException)
+			if !ok || n.kind != kProtocol || n.cause == nil {
+				continue
+			}
+			for _, img := range [][]byte{c.FR, nil} {
+				_, ferr := pe.FastRead(img)
+				if u := errors.Unwrap(pe); !sameErr(u, n.cause.err) {
+					v = evid.Failf("after FastRead of %d bytes (err=%v) into a protocol exception built by NewProtocolExceptionWithErr(e), errors.Unwrap returns %v instead of e (%v)", len(img), ferr, u, n.cause.err)
+					return
+				}
+				if comparableErr(n.cause.err) && !errors.Is(pe, n.cause.err) {
+					v = evid.Failf("after FastRead of %d bytes (err=%v) into a protocol exception built by NewProtocolExceptionWithErr(e), errors.Is(pe, e) is false", len(img), ferr)
+					return
+				}
+			}
+		}
 		depth = na
 		seen := map[int]bool{}
 		for _, n := range nodes[:na] {
@@ -315,7 +367,7 @@ var namedCodes = []int32{0, 1, 2, 3, 4, 5, 6, 7, 8, 9, 10, 11, -1, 0x7fffffff, -
 func genErrStep(t *rapid.T, leaf bool) ErrStep {
 	var s ErrStep
 	if leaf {
-		s.Op = rapid.SampledFrom([]string{"plain", "eof", "transport", "protocol", "protocol", "application", "foreign", "foreign"}).Draw(t, "leaf")
+		s.Op = rapid.SampledFrom([]string{"plain", "eof", "transport", "protocol", "protocol", "application", "foreign", "foreign", "uncmp"}).Draw(t, "leaf")
 	} else {
 		s.Op = rapid.SampledFrom([]string{"wrapf", "wrapsame", "pewrap", "pewrap", "pewrap", "prepend", "prepend", "prepend"}).Draw(t, "wrap")
 	}
@@ -353,6 +405,17 @@ func genErrChainCase(t *rapid.T) ErrChainCase {
 	}
 	for i := rapid.IntRange(0, 2).Draw(t, "nfresh"); i > 0; i-- {
 		c.Fresh = append(c.Fresh, genErrStep(t, true))
+	}
+	switch rapid.IntRange(0, 3).Draw(t, "frKind") {
+	case 0:
+		ae := thrift.NewApplicationException(rapid.Int32().Draw(t, "frType"), rapid.SampledFrom([]string{"", "m", "other text"}).Draw(t, "frMsg"))
+		img := make([]byte, ae.BLength())
+		ae.FastWrite(img)
+		c.FR = img[:rapid.IntRange(0, len(img)).Draw(t, "frCut")]
+	case 1:
+		c.FR = rapid.SliceOfN(rapid.Byte(), 0, 12).Draw(t, "frRaw")
+	case 2:
+		c.FR = []byte{0x0b, 0x00, 0x01, 0xff, 0xff, 0xff, 0xff} // negative string size
 	}
 	return c
 }
